@@ -31,9 +31,9 @@ def surviving(ops):
     for o in ops:
         if o[0] == "exec":
             acc.append(o[1])
-        else:
+        elif o[0] == "rollback":
             acc = acc[: o[1]]
-    return acc
+    return acc          # a refused command (("refused", c): the engine raises, the caller goes on) survives nowhere
 
 
 def independent_hash(log) -> str:
@@ -51,6 +51,9 @@ def check_program(job, variant, ops, check_every_step=True):
         try:
             if o[0] == "exec":
                 eng.exec(o[1])
+            elif o[0] == "refused":
+                if simlib.exec_safe(eng, o[1]) is not None:
+                    return {"what": f"a malformed command was not refused at step {idx}", "step": idx}
             else:
                 eng.rollback(o[1])
         except Exception as e:
@@ -100,7 +103,7 @@ def shrink_ops(job, variant, ops, budget_s=20.0):
             for o in cand:
                 if o[0] == "exec":
                     n += 1
-                else:
+                elif o[0] == "rollback":
                     if o[1] > n:
                         ok = False
                         break
@@ -111,7 +114,8 @@ def shrink_ops(job, variant, ops, budget_s=20.0):
 
 
 def ops_text(ops):
-    return [command_text(o[1]) if o[0] == "exec" else f"rollback({o[1]})" for o in ops]
+    return [command_text(o[1]) if o[0] == "exec" else f"refused: {command_text(o[1])}" if o[0] == "refused"
+            else f"rollback({o[1]})" for o in ops]
 
 
 def alphabet(job):
@@ -184,7 +188,11 @@ def random_unit(job, variant, pi, seed, length):
     it = iter(plan)
     targets = {"init": 0, "console": 0, "operation": 0}
     current = []
+    refused_pool = simlib.refused_commands()
     for c in it:
+        if pi % 2 == 1 and rng.random() < 0.08:
+            # a command the engine refuses with an exception; the session (and the rollbacks) go on
+            ops.append(("refused", refused_pool[0] if rng.random() < 0.6 else rng.choice(refused_pool)))
         ops.append(("exec", c))
         current.append(c)
         if rng.random() < 0.18:
@@ -208,6 +216,8 @@ def random_unit(job, variant, pi, seed, length):
     for o in ops:
         if o[0] == "exec":
             eng.exec(o[1])
+        elif o[0] == "refused":
+            simlib.exec_safe(eng, o[1])
         else:
             eng.rollback(o[1])
         logs = list(eng.operation_logs())
@@ -219,7 +229,9 @@ def random_unit(job, variant, pi, seed, length):
         out["broken"] = [{"kind": "correspondence", "point": "recorded play table is not functional", "job": job,
                           "conflicts": rec.conflicts[:3]}]
     out["reqs"].append({"fn": "engine", "tables": rec.tables(), "init": rec.ckpt_id(final[0].playlogs[0]),
-                        "ops": [{"exec": simlib.enc_command(o[1])} if o[0] == "exec" else {"rollback": o[1]} for o in ops]})
+                        "ops": [{"exec": simlib.enc_command(o[1])} if o[0] == "exec" else
+                                {"refuse": "console" if isinstance(o[1], ConsoleText) else "op"} if o[0] == "refused" else
+                                {"rollback": o[1]} for o in ops]})
     out["expect"].append({"job": job, "ops": ops_text(ops), "steps": steps, "logs": [rec.enc_log(l) for l in final],
                           "links": simlib.hash_structure([l.previous_hash for l in final], [l.hash for l in final])})
     return out
